@@ -212,6 +212,36 @@ def check(ctx):
     ctx.check("sublist_size = len(idx_list) // argc" in src and "argc = len(window.factors)" in src and "if window.width == 1:\n    return indices" in src, R, sw, "per-factor windows",
               "the flat argument tuple is cut into one window per factor; width-1 windows are not shifted", "the per-factor split of shift_window changed")
 
+    # ---- the k-th applicable trial of a strided window: applies_to_trial accepts trial start + k*stride (+1, 1-based), so the
+    # window of the k-th step is shifted by k*stride + (start - default start) trials: the step count is multiplied by the
+    # stride, the start offset (measured in trials) is not
+    R = "C15.shift"
+    cw = ctx.fn("constraint:Derivation.__apply_derivation_with_complex_window")
+    Fw2 = Facts(cw)
+    sd = [str(Fw2.at(x, x.value)) for x in Fw2.stmts if isinstance(x, ast.Assign) and dotted(x.targets[0]) == "delta"]
+    ctx.check(sd == ["sustain_count*window.start_delta"] or sd == ["block.sustain_count(self.factor)*self.factor.levels[0].window.start_delta"], R, cw, "delta %s" % sd,
+              "delta is the start offset in (sustained) trials", "delta is %s" % sd)
+    wp = ctx.fn("primitive:Window.__post_init__")
+    sdl = [str(Facts(wp).at(x, x.value)) for x in Facts(wp).stmts if isinstance(x, ast.Assign) and dotted(x.targets[0]) == "self.start_delta"]
+    ctx.check(len(sdl) == 1 and (sdl[0].startswith("self.start - ") or sdl[0].endswith(" + self.start")) and sdl[0].count("self.start") == 1, R, wp, "start_delta %s" % sdl, "start_delta = start - default start, in trials", "Window.start_delta is %s" % sdl)
+    incs = Fw2.augs("t")
+    ctx.check(incs == ["+= sustain_count"] or incs == ["+= block.sustain_count(self.factor)"], R, cw, "step counter %s" % incs, "t advances by one (sustained) trial per applicable step", "t is advanced by %s" % incs)
+    shifts = []
+    for node in ast.walk(cw.node):
+        if isinstance(node, ast.BinOp) and isinstance(node.op, ast.Mult):
+            for a_, b_ in ((node.left, node.right), (node.right, node.left)):
+                if isinstance(b_, ast.Call) and dotted(b_.func) == "get_trial_size":
+                    shifts.append((node, a_))
+    ctx.require(len(shifts) >= 1, "%s: the variable shift `<trials> * get_trial_size(x)` was not found" % cw.fq)
+    from ..sym import Env as _Env, _sym as _s
+    want = _s(ast.parse("t * window.stride + delta", mode="eval").body, _Env())
+    for node, trials in shifts:
+        got = _s(trials, _Env())
+        ctx.check(got == want, R, cw, "shift %s" % got, "the window of the k-th applicable trial is shifted by t*stride + delta trials",
+                  "the window variables of an applicable trial are shifted by `%s` trials; with t counting applicable steps and delta the start offset in trials, "
+                  "trial start + k*stride needs `t*window.stride + delta`: a start that differs from the default combined with a stride > 1 derives the level from the wrong trials "
+                  "(IterateSATGen then labels trials against the factor's own definition)" % got, node)
+
     # a derived level rebuilt for weight desugaring must keep its window (width, stride, start) and weight: the field-carry
     # rule of C23, restricted to the level / factor classes
     from . import C23
@@ -228,7 +258,11 @@ def check(ctx):
     control(ctx, mod, "UniGen ignores the error gate",
             lambda s: variants.in_function(s, "sweetpea/_internal/sampling_strategy/unigen.py", "UniGen.sample",
                                            "        if block.show_errors():\n            return SamplingResult([], {})\n", "        block.show_errors()\n"), "C15.gate")
+    control(ctx, mod, "start offset multiplied by the stride",
+            lambda s: variants.in_function(s, "sweetpea/_internal/constraint.py", "Derivation.__apply_derivation_with_complex_window",
+                                           "(t * window.stride + delta) * get_trial_size(x)", "(t + delta) * window.stride * get_trial_size(x)"), "C15.shift")
     ctx.min_instances("C15.carry", 2)
+    ctx.min_instances("C15.shift", 4)
     ctx.min_instances("C15.overlap", 4)
     ctx.min_instances("C15.gap", 5)
     ctx.min_instances("C15.gate", 5)
